@@ -9,7 +9,6 @@ import (
 	"time"
 
 	"github.com/pion/interceptor"
-	"github.com/pion/interceptor/internal/sequencenumber"
 	"github.com/pion/interceptor/pkg/stats"
 	"github.com/pion/interceptor/verifharness/kit"
 	"github.com/pion/rtcp"
@@ -34,11 +33,33 @@ func ntpToTime(v uint64) time.Time {
 }
 
 // model is a recount of what passed through for one SSRC since its recorder became active.
+// refUnwrapper extends 16-bit sequence numbers by the nearest-value rule (steps here stay far below 2^15) and, like the documented
+// behaviour of the library's, never goes below zero.
+type refUnwrapper struct {
+	init bool
+	last int64
+}
+
+func (u *refUnwrapper) unwrap(seq uint16) int64 {
+	if !u.init {
+		u.init, u.last = true, int64(seq)
+
+		return u.last
+	}
+	v := u.last + int64(int16(seq-uint16(u.last))) //nolint:gosec
+	if v < 0 {
+		v += 65536
+	}
+	u.last = v
+
+	return v
+}
+
 type model struct {
 	ssrc uint32
 	rate float64
 	// inbound
-	unwrap            sequencenumber.Unwrapper // C20
+	unwrap            refUnwrapper // written here, so that a fault in the library's unwrapper does not hide in the model
 	inInit            bool
 	first, highest    int64
 	pktsIn            uint64
@@ -234,7 +255,7 @@ func TestStatsEqualRecount(t *testing.T) {
 				return
 			}
 			m := r.m
-			u := m.unwrap.Unwrap(seq)
+			u := m.unwrap.unwrap(seq)
 			if !m.inInit {
 				m.inInit, m.first = true, u
 			}
